@@ -155,6 +155,63 @@ fn large_case(case: &mut Case, depth: usize, width: usize) {
     }
 }
 
+/// The same initial state listed more than once. "Evaluated once" is only promised for distinct
+/// initial states, so repeats among the visits are accepted here; the evaluated *set* must still
+/// be exactly the reachable set and `unique_state_count` its size.
+fn duplicate_inits_case(case: &mut Case) {
+    let knobs = Knobs { max_n: 24, allow_outside_inits: false, ..Knobs::default() };
+    let mut g = gen_graph(&mut case.rng, &knobs);
+    if g.inits.is_empty() {
+        case.distinct(g.structural_hash(), false);
+        return;
+    }
+    for _ in 0..case.rng.range(1, 3) {
+        let again = *case.rng.pick(&g.inits);
+        let at = case.rng.below(g.inits.len() + 1);
+        g.inits.insert(at, again);
+    }
+    let reach = g.reach();
+    add_props_with_keepalive(&mut case.rng, &mut g, &reach, 1);
+    case.distinct(g.structural_hash(), reach.count >= 2);
+    let model = GraphModel(Arc::new(g));
+    case.sample(|| model.summary());
+    for strategy in STRATEGIES {
+        let threads = *case.rng.pick(&[1usize, 2, 4]);
+        let cfg = RunCfg { threads, visitor: 2, ..RunCfg::default() };
+        let out = run_checker(&model, strategy, &cfg, false);
+        let tag = strategy.name();
+        let desc = || json!({"model": model.summary(), "strategy": tag, "threads": threads});
+        if !out.finished {
+            case.inconclusive(&format!("{} did not finish within the watchdog", tag));
+            continue;
+        }
+        if !out.worker_panics.is_empty() {
+            case.violation(&format!("C01/{}/worker-panicked", tag), json!({"run": desc(), "panics": out.worker_panics}));
+            return;
+        }
+        case.add("runs_with_duplicate_initial_states", 1);
+        let seen: std::collections::BTreeSet<u32> = out.visited_states.iter().copied().collect();
+        for s in 0..model.n {
+            if reach.reachable[s] != seen.contains(&(s as u32)) {
+                let what = if reach.reachable[s] { "reachable-state-not-visited" } else { "visited-unreachable-state" };
+                case.violation(&format!("C01/{}/duplicate-initial-states/{}", tag, what), json!({"run": desc(), "state": s}));
+                return;
+            }
+        }
+        if out.unique != reach.count {
+            case.violation(
+                &format!("C01/{}/duplicate-initial-states/unique-state-count-mismatch", tag),
+                json!({"run": desc(), "unique_state_count": out.unique, "distinct_reachable_states": reach.count}),
+            );
+            return;
+        }
+        if out.state_count < out.unique {
+            case.violation(&format!("C01/{}/duplicate-initial-states/state-count-below-unique", tag), json!({"run": desc()}));
+            return;
+        }
+    }
+}
+
 pub fn run(ctx: &mut Ctx) {
     ctx.rule = "G1 random finite graphs (self-loops, joins, cycles, ignored actions, 0-3 distinct initial \
         states, boundary cuts incl. all-outside and initials-only) with a never-violated keep-alive property; \
@@ -181,6 +238,7 @@ pub fn run(ctx: &mut Ctx) {
         });
     }
     stateright::verif::set_block_size(0);
+    ctx.cases("duplicate_initial_states", ctx.n(200, 4000), 0, duplicate_inits_case);
     ctx.cases("large_layered", ctx.n(30, 150), 2, |case| {
         let (d, w) = *case.rng.pick(&[(6usize, 2000usize), (5, 6000), (8, 4000), (4, 12000)]);
         let (d, w) = if case.ctx.quick() { (d, w) } else { (d, w * 3) };
